@@ -3,6 +3,9 @@ package props
 import (
 	"fmt"
 	"iter"
+	"runtime"
+	"runtime/debug"
+	"syscall"
 
 	"verif/core"
 	"verif/fmts"
@@ -84,6 +87,10 @@ func c18Seq(c *Case) (mk func() iter.Seq[string], name string, unordered bool, e
 				if len(op.Arg) > 0 {
 					t.Delete(append([]byte{}, op.Arg...))
 				}
+			case "fanout":
+				for b := 0; b < 256; b++ {
+					t.Add(append(append([]byte{}, op.Arg...), byte(b)))
+				}
 			}
 		}
 		return func() iter.Seq[string] {
@@ -94,6 +101,16 @@ func c18Seq(c *Case) (mk func() iter.Seq[string], name string, unordered bool, e
 		}, "trie.ForEach", true, false, true, func() { setKeyOrder(nil) }
 	case "canon":
 		seq := append([]byte{}, c.Input...)
+		// a second, different sequence of the same length for the overlapped walk: internal
+		// scratch state shared between two live iterations shows only if their data differ
+		other := make([]byte, len(seq))
+		for i := range seq {
+			other[i] = "TGCAN"[(int(seq[len(seq)-1-i])+i)%5]
+		}
+		c18Other = func() iter.Seq[string] {
+			s := sequtil.CanonicalSubsequences(other, c.K)
+			return func(yield func(string) bool) { s(func(b []byte) bool { return yield(string(b)) }) }
+		}
 		return func() iter.Seq[string] {
 			s := sequtil.CanonicalSubsequences(seq, c.K)
 			return func(yield func(string) bool) { s(func(b []byte) bool { return yield(string(b)) }) }
@@ -101,6 +118,27 @@ func c18Seq(c *Case) (mk func() iter.Seq[string], name string, unordered bool, e
 	}
 	panic("c18Seq: " + c.Iter)
 }
+
+// FDLimit is the soft RLIMIT_NOFILE of a C18 process (set by SetupC18): the
+// simulated descriptor budget.
+const FDLimit = 200
+
+// SetupC18 lowers the descriptor limit of the process.
+func SetupC18(ctx *core.Ctx) error {
+	var lim syscall.Rlimit
+	if err := syscall.Getrlimit(syscall.RLIMIT_NOFILE, &lim); err != nil {
+		return err
+	}
+	if lim.Cur > FDLimit {
+		lim.Cur = FDLimit
+		return syscall.Setrlimit(syscall.RLIMIT_NOFILE, &lim)
+	}
+	return nil
+}
+
+// c18Other, when set by c18Seq, makes an iterator of the same kind over different
+// data; the overlapped walk pairs it with the case's own iterator.
+var c18Other func() iter.Seq[string]
 
 type c18Info struct {
 	n        int
@@ -118,8 +156,14 @@ func execC18(c *Case) *Verdict {
 // execC18Info: Consumer nil means "every stop position x every style";
 // otherwise exactly the given one (replay / shrinking).
 func execC18Info(c *Case) (*Verdict, c18Info) {
+	c18Other = nil
 	mk, name, unordered, errLast, reusable, cleanup := c18Seq(c)
 	defer cleanup()
+	mkOther := c18Other
+	var fullOther []string
+	if mkOther != nil { // its reference walk, before anything was stopped
+		fullOther = sim.Consume(mkOther(), sim.ConsumerPlan{Style: sim.Direct, StopAt: -1}, 100000).Items
+	}
 	info := c18Info{name: name, reusable: reusable}
 	if reusable {
 		// One iterator VALUE serves every run of the case (a File iterator reopens the
@@ -129,7 +173,18 @@ func execC18Info(c *Case) (*Verdict, c18Info) {
 	}
 	full := sim.Consume(mk(), sim.ConsumerPlan{Style: sim.Direct, StopAt: -1}, 100000)
 	if full.Capped != "" {
-		info.skipped = "full_run_capped" // non-termination is C07's clause, not C18's
+		if unordered {
+			// no full result exists, but the items delivered so far must still be distinct members
+			seen := map[string]bool{}
+			for i, it := range full.Items {
+				if seen[it] {
+					return &Verdict{Clause: "C18.prefix", Key: "C18.prefix/" + name,
+						Detail: fmt.Sprintf("the walk does not end and item %d (%q) was already delivered: not distinct members", i, it), Observed: clip(full.Items, 12)}, info
+				}
+				seen[it] = true
+			}
+		}
+		info.skipped = "full_run_capped" // non-termination of a stream iterator is C07's clause, not C18's
 		return nil, info
 	}
 	if full.Panic != "" {
@@ -219,8 +274,118 @@ func execC18Info(c *Case) (*Verdict, c18Info) {
 		}
 		return nil
 	}
+	// After the stops: two walks of the same iterator value alive at the same time
+	// (as in a nested loop) must each still deliver the full sequence.
+	overlapped := func() *Verdict {
+		if !reusable || len(full.Items) == 0 {
+			return nil
+		}
+		var a, b []string
+		var pan any
+		func() {
+			defer func() { pan = recover() }()
+			next1, stop1 := iter.Pull(mk())
+			defer stop1()
+			second := mk
+			if mkOther != nil {
+				second = mkOther
+			}
+			next2, stop2 := iter.Pull(second())
+			defer stop2()
+			for live1, live2 := true, true; live1 || live2; {
+				if live1 {
+					if it, ok := next1(); ok {
+						a = append(a, it)
+					} else {
+						live1 = false
+					}
+				}
+				if live2 {
+					if it, ok := next2(); ok {
+						b = append(b, it)
+					} else {
+						live2 = false
+					}
+				}
+				if len(a) > 100000 || len(b) > 100000 {
+					break
+				}
+			}
+		}()
+		same := func(x []string) bool {
+			if len(x) != len(full.Items) {
+				return false
+			}
+			if unordered {
+				seen := map[string]int{}
+				for _, it := range x {
+					seen[it]++
+					if seen[it] > fullSet[it] {
+						return false
+					}
+				}
+				return true
+			}
+			for i := range x {
+				if x[i] != full.Items[i] {
+					return false
+				}
+			}
+			return true
+		}
+		okB := same(b)
+		if mkOther != nil {
+			okB = len(b) == len(fullOther)
+			for i := 0; okB && i < len(b); i++ {
+				okB = b[i] == fullOther[i]
+			}
+		}
+		if pan != nil || !same(a) || !okB {
+			d := "after the stops, two interleaved walks of the same iterator no longer both yield what a walk yielded before"
+			if pan != nil {
+				d += fmt.Sprint(" (panic: ", pan, ")")
+			}
+			obs := a
+			if same(a) {
+				obs = b
+			}
+			return &Verdict{Clause: "C18.rerun-after-stop", Key: "C18.rerun-after-stop/" + name, Detail: d, Expected: full.Items, Observed: obs}
+		}
+		return nil
+	}
+	// Resource budget: many stopped walks in a row while the process may hold only
+	// FDLimit descriptors and no garbage collection (hence no finalizer) helps out.
+	burst := func() *Verdict {
+		if c.FDBurst <= 0 || c.Iter != "file" || len(full.Items) == 0 {
+			return nil
+		}
+		old := debug.SetGCPercent(-1)
+		for i := 0; i < c.FDBurst; i++ {
+			sim.Consume(mk(), sim.ConsumerPlan{Style: sim.Styles[i%3], StopAt: 0}, 0)
+		}
+		again := sim.Consume(mk(), sim.ConsumerPlan{Style: sim.Direct, StopAt: -1}, 100000)
+		debug.SetGCPercent(old)
+		runtime.GC()
+		runtime.GC()
+		same := again.Panic == "" && len(again.Items) == len(full.Items)
+		for i := 0; same && i < len(again.Items); i++ {
+			same = again.Items[i] == full.Items[i]
+		}
+		if !same {
+			return &Verdict{Clause: "C18.rerun-after-stop", Key: "C18.rerun-after-stop/" + name,
+				Detail:   fmt.Sprintf("after %d stopped walks in a row (descriptor budget %d, no GC in between) a full walk no longer yields what it yielded before", c.FDBurst, FDLimit),
+				Expected: full.Items, Observed: again.Items}
+		}
+		return nil
+	}
 	if c.Consumer != nil {
-		return check(*c.Consumer), info
+		if v := check(*c.Consumer); v != nil {
+			return v, info
+		}
+		if v := overlapped(); v != nil {
+			return v, info
+		}
+		return burst(), info
 	}
 	for j := 0; j < len(full.Items); j++ {
 		for _, style := range sim.Styles {
@@ -230,6 +395,14 @@ func execC18Info(c *Case) (*Verdict, c18Info) {
 			}
 		}
 	}
+	if v := overlapped(); v != nil {
+		c.Consumer = &sim.ConsumerPlan{Style: sim.Direct, StopAt: 0}
+		return v, info
+	}
+	if v := burst(); v != nil {
+		c.Consumer = &sim.ConsumerPlan{Style: sim.Direct, StopAt: 0}
+		return v, info
+	}
 	return nil, info
 }
 
@@ -237,7 +410,7 @@ func genTreeSpec(r *core.Rng, depth int, budget *int) *NodeSpec {
 	n := &NodeSpec{}
 	*budget--
 	if depth > 0 {
-		for k := r.Intn(4); k > 0 && *budget > 0; k-- {
+		for k := r.Intn(4 + *budget/60); k > 0 && *budget > 0; k-- {
 			n.Children = append(n.Children, genTreeSpec(r, depth-1, budget))
 		}
 	}
@@ -258,13 +431,15 @@ func RunC18(ctx *core.Ctx, r *core.Rng) {
 			sz = fmts.Tiny
 		case y < 60:
 			sz = fmts.Multi
+		case y < 62:
+			sz = fmts.Medium // long iterations: hundreds of stop positions
 		}
 		doc := f.Gen(r, sz)
 		c.Input = doc.Render(core.Pick(r, []string{"\n", "\n", "\r\n"}))
 		if r.Chance(0.35) {
 			c.Input = fmts.Mutate(r, f, c.Input)
 		}
-		if len(c.Input) > 700 {
+		if len(c.Input) > 700 && sz != fmts.Medium {
 			c.Input = c.Input[:700]
 		}
 		plan := genPlan(r, core.Pick(r, planStyles), c.Input, f.Special)
@@ -295,10 +470,17 @@ func RunC18(ctx *core.Ctx, r *core.Rng) {
 			cfg.Cut = r.Range(0, len(z)-9)
 		}
 		c.File = cfg
+		if (kind == "plain" || kind == "gz") && r.Chance(0.04) {
+			c.FDBurst = FDLimit + 100
+		}
 	case x < 82:
 		c.Iter = core.Pick(r, []string{"preorder", "postorder"})
 		budget := r.Range(1, 40)
-		c.Rec = &WriteRec{Newick: genTreeSpec(r, r.Range(0, 5), &budget)}
+		depth := r.Range(0, 5)
+		if r.Chance(0.05) {
+			budget, depth = r.Range(100, 400), r.Range(3, 9) // beyond any small fixed-size internal stack
+		}
+		c.Rec = &WriteRec{Newick: genTreeSpec(r, depth, &budget)}
 		if n := c.Rec.Newick; len(n.Children) > 0 {
 			for _, ch := range n.Children {
 				if len(ch.Children) > 0 {
@@ -309,10 +491,14 @@ func RunC18(ctx *core.Ctx, r *core.Rng) {
 		}
 	case x < 92:
 		c.Iter = "foreach"
-		tc := genTrieCase(r, 14)
+		depthT := 14
+		if r.Chance(0.05) {
+			depthT = 120 // a trie with many members
+		}
+		tc := genTrieCase(r, depthT)
 		var ops []TrieOp
 		for _, op := range tc.Ops {
-			if op.Op == "add" || op.Op == "del" {
+			if op.Op == "add" || op.Op == "del" || op.Op == "fanout" {
 				op.Scribble = false
 				ops = append(ops, op)
 			}
@@ -322,7 +508,13 @@ func RunC18(ctx *core.Ctx, r *core.Rng) {
 	default:
 		c.Iter = "canon"
 		c.Input = r.Bytes(r.Range(0, 40), "ACGTN")
+		if r.Chance(0.05) {
+			c.Input = r.Bytes(r.Range(100, 400), "ACGTNacgtn")
+		}
 		c.K = r.Range(0, len(c.Input)+2)
+		if len(c.Input) > 40 && r.Chance(0.7) {
+			c.K = r.Range(1, 12)
+		}
 	}
 	ctx.EvS(describe(c))
 	v, info := execC18Info(c)
@@ -357,6 +549,10 @@ func RunC18(ctx *core.Ctx, r *core.Rng) {
 		}
 		if c.File != nil {
 			ctx.Stats.Inc("fault_fired/file_" + c.File.Kind)
+		}
+		if c.FDBurst > 0 && info.n > 0 {
+			ctx.Stats.Inc("fault_fired/descriptor_budget_burst_of_stopped_walks")
+			ctx.EvalN(int64(c.FDBurst))
 		}
 		if c.Iter == "canon" && c.K > len(c.Input) {
 			ctx.Stats.Inc("probe/canon_k_greater_than_len")
